@@ -8,3 +8,4 @@ pub mod c14;
 pub mod c15;
 pub mod menc;
 pub mod c13;
+pub mod c12;
